@@ -241,27 +241,29 @@ Definition lift_grid (t : table) (r : res (list (list cell))) : table * res unit
   | Err e => (t, Err e)
   end.
 
-(** table.rows[i].height = h: IndexError from _RowCollection, then a:tr h is
-    validated and WRITTEN, then notify_height_changed assigns the sum to the graphic
-    frame, whose setter validates ST_PositiveCoordinate: when that fails the row
-    height stays changed and the frame keeps its old size. *)
+(** table.rows[i].height = h: IndexError from _RowCollection; the setter remembers the
+    prior a:tr h, writes the new one (validated as ST_Coordinate: ValueError before anything
+    changes), then notify_height_changed assigns the sum to the graphic frame, whose setter
+    validates ST_PositiveCoordinate: when that raises, the setter restores the prior row
+    height and re-raises, so a rejected assignment leaves the table as it was. *)
 Definition set_row_h (t : table) (i : nat) (h : Z) : table * res unit :=
   if i <? length (heights t) then
     if in_coord h then
       let hs := set_nth i h (heights t) in
       let s := sumZ hs in
       if in_poscoord s then (mkTable (grid t) (widths t) hs (cx t) s, Ok tt)
-      else (mkTable (grid t) (widths t) hs (cx t) (cy t), Err ValueErr)
+      else (t, Err ValueErr)
     else (t, Err ValueErr)
   else (t, Err IndexErr).
 
+(** table.columns[j].width = w: the same protocol on a:gridCol w and the frame width. *)
 Definition set_col_w (t : table) (j : nat) (w : Z) : table * res unit :=
   if j <? length (widths t) then
     if in_coord w then
       let ws := set_nth j w (widths t) in
       let s := sumZ ws in
       if in_poscoord s then (mkTable (grid t) ws (heights t) s (cy t), Ok tt)
-      else (mkTable (grid t) ws (heights t) (cx t) (cy t), Err ValueErr)
+      else (t, Err ValueErr)
     else (t, Err ValueErr)
   else (t, Err IndexErr).
 
